@@ -46,7 +46,9 @@ type c10EngineResult struct {
 	Log                []string
 }
 
-func c10Lemo(n int64) *big.Int { return new(big.Int).Mul(big.NewInt(n), big.NewInt(1000000000000000000)) }
+func c10Lemo(n int64) *big.Int {
+	return new(big.Int).Mul(big.NewInt(n), big.NewInt(1000000000000000000))
+}
 
 // c10TermPanic runs f and names the NewTermRecord panic, if any.
 func c10TermPanic(f func()) (out string) {
